@@ -1,6 +1,16 @@
 import CoclsModel.Proto
 import CoclsModel.LimitedQueue
-/-! Driver for C10: runs the `limited_queue` model on the harness input (same grammar as harness/h_queue.cpp). -/
+/-! Driver for C10: runs the `limited_queue` model on the harness input (same grammar as harness/h_queue.cpp).
+
+Kind `lq <limit>` (harness `run_case`): sequential; every out-of-lock resolution is performed right after the lock
+region that decided it.
+
+Kind `slq <limit>` (harness `run_slqcase`): every operation of the harness runs on its own thread and parks after a
+lock region that moved a promise out of `_awaiters` / `_blocked`; the resolution is performed when the input says
+`deliver k` (= `Op.deliver k` of the model), so other lock regions run in between.  Every line carries the number of
+lock regions the operation entered: in the model every operation is exactly one lock region (`r=1`) and a resolution
+none (`r=0`); an implementation that splits a lock region prints something else.  `destroy` / `end` first perform all
+outstanding resolutions. -/
 open Cocls Cocls.Proto Cocls.LQ
 
 def outStr : Out → String
@@ -53,6 +63,91 @@ def doOp (s : State) (op : Op) : State × String :=
     | Res.bad => "bad-op"
   (s2, withEvents head ((sortBy evKey newEvs).map evStr))
 
+/-! ### scheduled mode (`slq`) -/
+
+/-- the call that is parked with the i-th in-flight resolution: what it will return, and its own future's completion -/
+structure Origin where
+  label : String              -- `push#3` | `pop#1` | `upush` | `upop`
+  status : String             -- `ok` | `v:5` | `1`
+  own : Option Ev
+  deriving Inhabited
+
+structure SState where
+  s : State
+  origins : List Origin := []   -- parallel to `s.inflight`
+
+/-- one lock region, no resolution performed -/
+def sOp (d : SState) (op : Op) : SState × String :=
+  let (s1, r) := step d.s op
+  let grew := s1.inflight.length > d.s.inflight.length
+  let (head, origin) : String × Option Origin := match r with
+    | Res.push id ready =>
+        if grew then (s!"push#{id} paused", some ⟨s!"push#{id}", "ok", some (Ev.push id Out.ok)⟩)
+        else (s!"push#{id} " ++ (if ready then "ok" else "pending"), none)
+    | Res.pop id (some o) =>
+        if grew then (s!"pop#{id} paused", some ⟨s!"pop#{id}", outStr o, some (Ev.pop id o)⟩)
+        else (s!"pop#{id} {outStr o}", none)
+    | Res.pop id none => (s!"pop#{id} pending", none)
+    | Res.flag b =>
+        let name := match op with | Op.upop _ => "upop" | Op.upush _ => "upush" | _ => "empty"
+        if grew then (name ++ " paused", some ⟨name, "1", none⟩) else (name ++ " " ++ boolStr b, none)
+    | Res.num n => (s!"size {n}", none)
+    | Res.unit => ("destroy", none)
+    | Res.bad => ("bad-op", none)
+  let origins := match origin with
+    | some o => d.origins ++ [o]
+    | none => d.origins
+  ({ s := s1, origins := origins }, if head == "bad-op" then head else head ++ " r=1")
+
+/-- `deliver k`: the k-th parked call performs its resolution and returns -/
+def sDeliver (d : SState) (k : Nat) : SState × String :=
+  match d.s.inflight[k]?, d.origins[k]? with
+  | some e, some o =>
+      let s1 := (step d.s (Op.deliver k)).1
+      ({ s := s1, origins := d.origins.eraseIdx k }, withEvents s!"deliver r=0 ret={o.label}:{o.status}" [evStr e])
+  | _, _ => (d, "deliver none")
+
+/-- `destroy` / `end`: every parked call finishes (in the order in which they parked), then the queue dies -/
+def sDestroy (d : SState) (head : String) : String :=
+  let flushed := d.s.inflight ++ d.origins.filterMap (·.own)
+  let s0 := flush d.s (d.s.inflight.length + 1)
+  let n0 := s0.completed.length
+  let s1 := (step s0 Op.destroy).1
+  withEvents head ((sortBy evKey (flushed ++ s1.completed.drop n0)).map evStr)
+
+partial def skipToEnd (lines : Array String) (i : Nat) : Nat :=
+  if h : i < lines.size then
+    if words lines[i] == ["end"] then i + 1 else skipToEnd lines (i + 1)
+  else i
+
+partial def sLoop (lines : Array String) (i : Nat) (d : SState) : IO Nat := do
+  if h : i < lines.size then
+    let ws := words lines[i]
+    match ws with
+    | [] => sLoop lines (i+1) d
+    | ["end"] =>
+        IO.println (sDestroy d "end")
+        return i + 1
+    | ["destroy"] =>
+        IO.println (sDestroy d "destroy")
+        IO.println "end"
+        return skipToEnd lines (i+1)
+    | ["deliver", k] =>
+        match k.toNat? with
+        | some k =>
+            let (d', out) := sDeliver d k
+            IO.println out
+            sLoop lines (i+1) d'
+        | none => IO.println "bad-op"; sLoop lines (i+1) d
+    | _ =>
+        match parseOp ws with
+        | some op =>
+            let (d', out) := sOp d op
+            IO.println out
+            sLoop lines (i+1) d'
+        | none => IO.println "bad-op"; sLoop lines (i+1) d
+  else return i
+
 partial def loop (lines : Array String) (i : Nat) (st : Option State) : IO Unit := do
   if h : i < lines.size then
     let ws := words lines[i]
@@ -60,6 +155,10 @@ partial def loop (lines : Array String) (i : Nat) (st : Option State) : IO Unit 
     | ("case" :: id :: "lq" :: lim :: _), _ =>
         IO.println s!"case {id}"
         loop lines (i+1) (some (init (lim.toNat?.getD 1)))
+    | ("case" :: id :: "slq" :: lim :: _), _ =>
+        IO.println s!"case {id}"
+        let j ← sLoop lines (i+1) { s := init (lim.toNat?.getD 1) }
+        loop lines j none
     | ["end"], some s =>
         let (_, out) := if s.alive then doOp s Op.destroy else (s, "destroy")
         -- the harness prints `end ; <events>`
